@@ -240,7 +240,8 @@ def zid_assignment_eval(run: Run, model: PyModel, rid: str) -> None:
     ZM = "zorg.storage.sql._zid_manager.ZIDManager"
     I = Interp(model, probes={"zorg.shared.dates.is_long_date_spec": long_date, f"{ZM}.get_next": get_next, ZM: construct_any, "method:*": meth}, max_states=4000)
     fz = model.func(f"{REPO}._add_zids")
-    bodies = ["plain  first word\n  second line", "2024-03-13 dated  note", "2024x03y13 look-alike", "  2024-13-39 impossible date", "10d relative look-alike", "240102 short date first", "P2P priority look-alike", "P10 another one", "P1 priority-shaped first word of a plain note"]
+    bodies = ["plain  first word\n  second line", "2024-03-13 dated  note", "2024x03y13 look-alike", "  2024-13-39 impossible date", "10d relative look-alike", "240102 short date first", "P2P priority look-alike", "P10 another one", "P1 priority-shaped first word of a plain note",
+              "2024-03-13\n  a first line that is only a date", "2024-03-13  two blanks after the date", "trailing blank \n  second line"]
     st = State()
 
     def N(body, zid):
@@ -286,7 +287,8 @@ def zid_assignment_eval(run: Run, model: PyModel, rid: str) -> None:
             w0 = text.split(" ")[0]
             real_priority = len(w0) == 2 and w0[0] == "P" and w0[1].isdigit()
             # the same text as a plain note, as a todo, and as a todo with a priority (a todo's own priority word is not part of its body, so a body that starts with one is only tried behind a priority)
-            prefixes = ["- ", "o P1 ", "  x P0 "] + ([] if real_priority else ["o ", "~ "])
+            # ... and with redundant blanks between kind, priority and text (the compiler's body does not contain them, so the file line must not keep them either)
+            prefixes = ["- ", "o P1 ", "  x P0 ", "-   ", "o P1   "] + ([] if real_priority else ["o ", "~ ", "<  "])
             for prefix in prefixes:
                 lv, why = writeback_line(model, "NewZorgNotesEvent", prefix + text, dict(body=f["body"], zid=zid), "new_notes", probes={"zorg.shared.dates.is_long_date_spec": long_date})
                 if lv is None:
@@ -294,14 +296,16 @@ def zid_assignment_eval(run: Run, model: PyModel, rid: str) -> None:
                     continue
                 for _ in (0,):
                     idx_first = f["body"].split("\n")[0] if isinstance(f["body"], str) else None
-                    ok = idx_first is not None and lv == prefix + idx_first
+                    canon = " ".join(prefix.split()) + " "
+                    canon = prefix[:len(prefix) - len(prefix.lstrip())] + canon  # indentation is kept, blanks inside the prefix are single
+                    ok = idx_first is not None and lv == canon + idx_first
                     run.check(rid, f"index body and file line agree after the ZID is added (`{prefix}`, first word {first_line.split()[0]!r})", ok, "_add_zids/_add_zid_to_line",
                               f"{prefix + text!r}: index {idx_first!r} file {lv!r}",
                               f"for an item `{prefix}{text}` the indexed body starts {idx_first!r} but the file line becomes {lv!r}: index and file disagree (and the page is not re-read, its hash having been refreshed)",
                               file=FILE_R, node=fz.node)
             want_rest = first_line.lstrip()
             if LONG.get(want_rest.split(" ")[0]):
-                want_rest = want_rest.split(" ", 1)[1]
+                want_rest = want_rest.split(" ", 1)[1] if " " in want_rest else ""
             exp = f"{zid} {want_rest}" + body[len(first_line):]
             run.check(rid, f"the indexed body is the ZID, one blank and the note's own text (first word {first_line.split()[0]!r})", f["body"] == exp, "_add_zids", f"{body!r} -> {f['body']!r}",
                       f"the body {body!r} is indexed as {f['body']!r}, expected {exp!r} (only a real YYYY-MM-DD first word is dropped; blanks and line breaks are kept)", file=FILE_R, node=fz.node)
